@@ -11,6 +11,9 @@ from core import fr
 
 class C05(core.Check):
     pid = 'C05'
+    unproved = [
+        'engine level (tracer on real sessions): decided by the oracle',
+    ]
     rule = ('correspondence: operation sequences on the real Order/Exchange/Position/OrdersState/ClosedTrades objects and the '
             'Lean accounts model with repeated execute/cancel calls on the same order, cancel-all interleaved with active '
             'orders, update_active_orders, in spot and futures, full state (balances, positions, margin tables, statuses, '
@@ -130,7 +133,7 @@ class C05(core.Check):
 
     def engine_oracle(self, res, boost):
         from jesse.store import store
-        for t in range(self.budget(30, 600, boost)):
+        for t in range(self.budget(80, 600, boost)):
             seed = self.rng.randrange(1 << 30)
             rr = random.Random(seed)
             kind = rr.choice(['futures', 'futures', 'spot'])
